@@ -19,6 +19,11 @@ AVarTab == << [shape |-> <<>>,              rec |-> FALSE, xsz |-> 4],    \* 0: 
 BVarTab == << [shape |-> <<5>>,    rec |-> FALSE, xsz |-> 4],      \* 0: V1[5]
               [shape |-> <<3, 3>>, rec |-> TRUE,  xsz |-> 1] >>    \* 1: R2[t][3]  (1- or 2-byte type)
 
+(* longer extents in other than the fastest dimension: strided requests with three and more rows / planes *)
+CVarTab == << [shape |-> <<5, 3>>,    rec |-> FALSE, xsz |-> 4],      \* 0: W2[5][3]
+              [shape |-> <<3, 5, 2>>, rec |-> TRUE,  xsz |-> 4],      \* 1: S3[t][5][2]
+              [shape |-> <<7>>,       rec |-> FALSE, xsz |-> 4] >>    \* 2: W1[7]
+
 (* all legal (start, count, stride) triples of one dimension of length n *)
 DimOpts(n) == {t \in (0..(n - 1)) \X (1..n) \X (1..2) : t[1] + (t[2] - 1) * t[3] <= n - 1}
 
